@@ -18,6 +18,10 @@ _ASSUME = ['sequentially consistent atomics; std::mutex / std::condition_variabl
 _TRUST = ['modelled by hand, tied by correspondence only: control flow of the producer loop, its catch block, Next, Recycle, '
           'BeforeFirst, Destroy at the granularity of synchronisation operations; the counter abstraction of consumer threads',
           'harness/common/vsched.h (controlled scheduler substituting the std synchronisation types)']
+# C07 only: the life cycle (Init again after Destroy)
+_TRUST_LIFE = ['life cycle: `reinit` models Init as the assignments extracted from the source (Gen initStores) + a new producer '
+               'thread; the harness cases `fine life2` run on real threads (schedule not controlled, outcome schedule independent) '
+               'and are judged by the oracle only; `C07_second_life` transfers the Reachable theorems to the second life']
 
 CONFIG = {
     'subs': ['TIter'],
